@@ -611,7 +611,7 @@ func (fr *FnRun) applyContract(st *State, site ssa.Instruction, ctr *Contract, f
 	ex := fr.ex
 	vars := fr.bindContractEnv(ctr, fn, sig, args)
 	callee := ShortKey(ctr.Key)
-	env := &Env{st: st, old: st, vars: vars, fr: fr, pkg: ctr.Pkg}
+	env := &Env{st: st, old: st, vars: vars, fr: fr, pkg: ctr.Pkg, args: vars}
 	for i, rq := range ctr.Requires {
 		t := fr.evalBool(rq.E, env)
 		for j, c := range conjuncts(t) {
@@ -635,7 +635,7 @@ func (fr *FnRun) applyContract(st *State, site ssa.Instruction, ctr *Contract, f
 		}
 	}
 	for _, m := range ctr.Modifies {
-		fr.havocLoc(st, m, &Env{st: old, old: old, vars: vars, fr: fr, pkg: ctr.Pkg})
+		fr.havocLoc(st, m, &Env{st: old, old: old, vars: vars, fr: fr, pkg: ctr.Pkg, args: vars})
 	}
 	// results
 	rs := sig.Results()
@@ -662,7 +662,7 @@ func (fr *FnRun) applyContract(st *State, site ssa.Instruction, ctr *Contract, f
 	if len(results) == 1 {
 		post["result"] = results[0]
 	}
-	penv := &Env{st: st, old: old, vars: post, fr: fr, pkg: ctr.Pkg}
+	penv := &Env{st: st, old: old, vars: post, fr: fr, pkg: ctr.Pkg, args: vars}
 	fr.bindLets(st, ctr, penv)
 	// alias clauses `res == E` for reference-typed results bind the result instead of being assumed
 	skip := map[*Clause]bool{}
@@ -698,7 +698,7 @@ func (fr *FnRun) applyContract(st *State, site ssa.Instruction, ctr *Contract, f
 	for _, cs := range ctr.Cases {
 		var pre []*Term
 		for _, rq := range cs.Requires {
-			pre = append(pre, fr.evalBool(rq.E, &Env{st: old, old: old, vars: vars, fr: fr, pkg: ctr.Pkg}))
+			pre = append(pre, fr.evalBool(rq.E, &Env{st: old, old: old, vars: vars, fr: fr, pkg: ctr.Pkg, args: vars}))
 		}
 		for _, en := range cs.Ensures {
 			st.assume(Implies(And(pre...), fr.evalBool(en.E, penv)))
